@@ -221,13 +221,16 @@ def setField (rec : URec) (n : Node) (st : Store) (k : String) (v : Json) : Res 
   | "format" => str (fun s => { n with format := s }) n.format
   | "type" =>
     match v with
-    | .str s => .ok ({ n with type := s }, st)
-    | .arr _ => Res.bind (decStrList v) fun l => .ok ({ n with types := l }, st)
+    -- the wrapper struct holds ONE json.RawMessage for "type": whatever was decoded last (an exact key or a case variant of it)
+    -- decides between the string form and the array form; the other form stays unset
+    | .str s => .ok ({ n with type := s, types := none }, st)
+    | .arr _ => Res.bind (decStrList v) fun l => .ok ({ n with types := l, type := "" }, st)
     | _ => .err
   | "items" =>
     match v with
-    | .arr xs => Res.bind (decSchemaElems rec xs st) fun (ids, st) => .ok ({ n with itemsArray := some ids }, st)
-    | _ => Res.bind (rec v st) fun (id, st) => .ok ({ n with items := some id }, st)
+    -- likewise one json.RawMessage for "items": the last spelling decides between schema form and array form
+    | .arr xs => Res.bind (decSchemaElems rec xs st) fun (ids, st) => .ok ({ n with itemsArray := some ids, items := none }, st)
+    | _ => Res.bind (rec v st) fun (id, st) => .ok ({ n with items := some id, itemsArray := none }, st)
   | "dependencies" =>
     match v with
     | .null => .ok (n, st)
